@@ -144,6 +144,7 @@ def gen_histories(rng, index, n_random, trace_every):
             hid += 1
     # tokenizer pairs
     tdirty = [[{"op": "tokenize", "in": i}] for i in index["comments"] + index["untok"][:3] + index["valid"][:2]]
+    tdirty += [[{"op": "tokenize", "in": i}, {"op": b, "in": -1}] for i in index["comments"][2:] + index["valid"][2:4] for b in ["reset", "putget"]]
     tdirty += [[{"op": "setdialect", "in": -1, "opt": "dialect:mysql"}, {"op": b, "in": -1}] for b in ["reset", "putget"]]
     tdirty += [[{"op": "setdialect", "in": -1, "opt": "dialect:mysql"}, {"op": "tokenize", "in": index["comments"][1]}, {"op": "putget", "in": -1}]]
     tdirty += [[{"op": "setlogger", "in": -1, "opt": "logger:on"}, {"op": b, "in": -1}] for b in ["reset", "putget"]]
@@ -200,33 +201,33 @@ def self_contained(h, inputs):
             "trace": False, "inputs": [inputs[i] for i in used]}
 
 
-def shrink(h, inputs, rounds=6):
-    """greedy removal of operations while the history still fails"""
-    cur = h
-    for _ in range(rounds):
+def shrink(h, inputs, budget=40):
+    """delta debugging over the operations: remove chunks (halves, quarters, ... single operations) while the
+    history still fails; every round is one harness call with all candidates of the current chunk size"""
+    cur = dict(h)
+    cur["trace"] = False
+    n = max(1, len(cur["ops"]) // 2)
+    calls = 0
+    while n >= 1 and calls < budget and cur["ops"]:
         cands = []
-        for i in range(len(cur["ops"])):
+        for i in range(0, len(cur["ops"]), n):
             c = dict(cur)
-            c["ops"] = cur["ops"][:i] + cur["ops"][i + 1:]
-            c["id"] = i
-            c["trace"] = False
+            c["ops"] = cur["ops"][:i] + cur["ops"][i + n:]
+            c["id"] = len(cands)
             cands.append(c)
-        if not cands:
-            break
         _, outs = run_histories(cands, inputs, timeout=600)
+        calls += 1
         bad = [o["id"] for o in outs if failing(o)]
-        if not bad:
-            break
-        # drop as many independent operations as possible: try removing all individually-removable ones, else the first
-        allrm = dict(cur)
-        allrm["ops"] = [o for i, o in enumerate(cur["ops"]) if i not in set(bad)]
-        allrm["id"] = 0
-        _, o2 = run_histories([allrm], inputs, timeout=600)
-        if o2 and failing(o2[0]):
-            cur = allrm
+        if bad:
+            cur = dict(cands[bad[0]])
+            n = max(1, min(n, len(cur["ops"]) // 2)) if len(cur["ops"]) > 1 else 1
+            if not cur["ops"]:
+                break
         else:
-            cur = dict(cur)
-            cur["ops"] = cur["ops"][:bad[0]] + cur["ops"][bad[0] + 1:]
+            if n == 1:
+                break
+            n = max(1, n // 2)
+    cur["id"] = h["id"]
     return cur
 
 
@@ -359,7 +360,7 @@ def run(tier):
                     rp.known(ksig[s]["key"], ksig[s].get("what", ""))
             continue
         key = tuple(sorted(sigs - set(ksig))) or (("panic", o.get("panic", "")[:40]),)
-        if key in reported or len(reported) >= 6:
+        if key in reported or len(reported) >= 3:
             continue
         reported.add(key)
         small = shrink(h, inputs)
